@@ -1,4 +1,5 @@
 import NauyacaVerif.Srv.RenderProof
+import NauyacaVerif.Srv.RelayModel
 namespace Srv
 
 /-! # C18: what the proxy hands to its client is what the upstream sent (well-formed case) -/
@@ -55,4 +56,37 @@ theorem relay_verbatim (st : Nat) (metaBytes body : Bytes) (metaStr : PyStr)
     have he : encodeBody st metaStr (Body.bytes body) = (st, metaStr, body) := by
       unfold encodeBody; simp [h2]
     simp only [hb, Bool.false_eq_true, ↓reduceIte, he, header, hmeta, upstreamBytes]
+
+/-- **C18 `proxy_faults`**: whatever the failure and whatever its message text, the bytes written
+    downstream are one well-formed header with status 43 and no body -/
+theorem proxy_faults (k : FailClass) (msg : PyStr) :
+    WFHeader (render (proxyRespond (.fail k msg))).1 ∧
+    statusOf (render (proxyRespond (.fail k msg))).1 = 43 ∧
+    (render (proxyRespond (.fail k msg))).2 = [] := by
+  have hwf := (render_wf (proxyRespond (.fail k msg))).1
+  refine ⟨hwf, ?_, ?_⟩
+  · cases k <;>
+      simp [proxyRespond, render, normStatus, encodeBody, NauyacaVerif.Gen.proxyStatusTimeout,
+        NauyacaVerif.Gen.proxyStatusConnection, NauyacaVerif.Gen.proxyStatusOther, statusOf_header]
+  · cases k <;>
+      simp [proxyRespond, render, normStatus, encodeBody, NauyacaVerif.Gen.proxyStatusTimeout,
+        NauyacaVerif.Gen.proxyStatusConnection, NauyacaVerif.Gen.proxyStatusOther]
+
+/-- every fault kind of the property ends in one of the three clauses, hence in 43 -/
+theorem proxy_fault_kinds (f : Fault) (msg : PyStr) :
+    statusOf (render (proxyRespond (.fail f.cls msg))).1 = 43 ∧ (render (proxyRespond (.fail f.cls msg))).2 = [] :=
+  ⟨(proxy_faults f.cls msg).2.1, (proxy_faults f.cls msg).2.2⟩
+
+/-- **C18 `proxy_no_follow`**: for every redirect graph, a 3x answer of the upstream is what the proxy
+    returns, and the upstream URL is the only one connected to -/
+theorem proxy_no_follow (fetch : Cl.Url → Option Cl.Resp) (max : Nat) (u : Cl.Url) (s : Nat) (t : Cl.Url)
+    (h : fetch u = some (.redirect s t)) : proxyGet fetch max u = (.ok (.redirect s t), [u]) := by
+  simp [proxyGet, clientGet, NauyacaVerif.Gen.proxyFollowRedirects, h]
+
+/-- exactly one connection, whatever the upstream answers -/
+theorem proxy_single_connection (fetch : Cl.Url → Option Cl.Resp) (max : Nat) (u : Cl.Url) :
+    (proxyGet fetch max u).2 = [u] := by
+  unfold proxyGet clientGet
+  simp only [NauyacaVerif.Gen.proxyFollowRedirects, Bool.false_eq_true, ↓reduceIte]
+  cases fetch u <;> rfl
 end Srv
